@@ -365,6 +365,22 @@ def run_plan(w, cfg, faults, ref, tape, gens, then=None):
                             V("snapshot", f"pipeline-snapshot-reproduces-other-exception:{tag}", {"reproduced": repr(_exc_id(e))})
                     else:
                         V("snapshot", f"pipeline-snapshot-did-not-reproduce-after-second-failure:{tag}")
+                        return
+                    if "Uncopyable(" not in repr(ps.kwargs):
+                        # saved over the snapshot file of the first failure, then loaded: the latest failure, not an older one
+                        from pipefunc._pipefunc import ErrorSnapshot
+
+                        path = os.path.join(root, "last-error.pkl")
+                        try:
+                            ps.save_to_file(path)
+                            loaded = ErrorSnapshot.load_from_file(path)
+                            loaded.reproduce()
+                        except Exception as e:  # noqa: BLE001
+                            if _exc_id(e) != planned2:
+                                V("snapshot", f"saved-snapshot-reproduces-other-exception-after-second-failure:{tag}",
+                                  {"reproduced": repr(_exc_id(e)), "planned": repr(planned2)})
+                        else:
+                            V("snapshot", f"saved-snapshot-did-not-reproduce-after-second-failure:{tag}")
 
                 try:
                     sim.kernel.run(wrapped)
@@ -445,7 +461,7 @@ def _check_snapshot(p, w, fired, err, root, V, raised_calls):
         unsavable = "Uncopyable(" in repr(snap.kwargs)  # (possibly nested) value that cannot be pickled by nature
         for label, s in (("direct", snap),) + (() if unsavable else (("saved", None),)):
             if s is None:
-                path = os.path.join(root, f"snap-{f.fn}.pkl")
+                path = os.path.join(root, "last-error.pkl")  # one fixed file, overwritten by every save
                 try:
                     snap.save_to_file(path)
                     s = ErrorSnapshot.load_from_file(path)
